@@ -20,6 +20,8 @@ pub enum Item {
     /// key id, generation rank (timestamp = 1000 + rank*7, ties possible), value length class, expiry class, key length class
     Record { key: u8, rank: u8, vlen: u16, blocks: u8, expiry: u8, long_key: u8 },
     Marker { blocks: u8 },
+    /// retirement markers still in the pending state (a retirement that was interrupted)
+    PendingMarker { blocks: u8 },
     Tombstone,
     Gap(u8),
 }
@@ -47,11 +49,12 @@ pub struct MigCase {
     pub dest: DestKind,
 }
 
-fn item() -> BoxedStrategy<Item> {
+pub fn item() -> BoxedStrategy<Item> {
     prop_oneof![
         14 => (0u8..10, 0u8..6, 1u16..900, prop_oneof![4 => Just(0u8), 2 => 1u8..5], 0u8..4, prop_oneof![12 => Just(0u8), 1 => Just(1u8), 1 => Just(2u8)])
             .prop_map(|(key, rank, vlen, blocks, expiry, long_key)| Item::Record { key, rank, vlen, blocks, expiry, long_key }),
         3 => (1u8..5).prop_map(|blocks| Item::Marker { blocks }),
+        1 => (1u8..4).prop_map(|blocks| Item::PendingMarker { blocks }),
         1 => Just(Item::Tombstone),
         2 => (1u8..4).prop_map(Item::Gap),
     ]
@@ -105,7 +108,7 @@ fn case_strat(tier: Tier) -> BoxedStrategy<MigCase> {
         .boxed()
 }
 
-const NOW: u64 = 1_700_000_000_000_000_000;
+pub const NOW: u64 = 1_700_000_000_000_000_000;
 
 fn key_bytes(version: u32, key: u8, long_key: u8) -> Vec<u8> {
     match long_key {
@@ -127,7 +130,7 @@ fn key_bytes(version: u32, key: u8, long_key: u8) -> Vec<u8> {
 }
 
 /// Build a legacy image from the item list with the independent codec.
-fn build_synth(version: u32, items: &[Item], journal_items: &[u8], plain_meta: bool) -> Vec<u8> {
+pub fn build_synth(version: u32, items: &[Item], journal_items: &[u8], plain_meta: bool) -> Vec<u8> {
     // size the device to fit
     let mut need = 16u64;
     for it in items {
@@ -137,7 +140,7 @@ fn build_synth(version: u32, items: &[Item], journal_items: &[u8], plain_meta: b
                 let v = value_len(version, k.len(), *vlen, *blocks);
                 layout::record_blocks(version, k.len(), v) as u64
             }
-            Item::Marker { blocks } => *blocks as u64,
+            Item::Marker { blocks } | Item::PendingMarker { blocks } => *blocks as u64,
             Item::Tombstone => 1,
             Item::Gap(n) => *n as u64,
         };
@@ -170,6 +173,14 @@ fn build_synth(version: u32, items: &[Item], journal_items: &[u8], plain_meta: b
             Item::Marker { blocks: nb } => {
                 for b in 0..*nb as u64 {
                     let m = layout::encode_marker(s + b, *nb as u64 - b, 1);
+                    img[(s + b) as usize * B..(s + b + 1) as usize * B].copy_from_slice(&m);
+                }
+                extents.push((s, *nb as u64));
+                s += *nb as u64;
+            }
+            Item::PendingMarker { blocks: nb } => {
+                for b in 0..*nb as u64 {
+                    let m = layout::encode_marker(s + b, *nb as u64 - b, 0);
                     img[(s + b) as usize * B..(s + b + 1) as usize * B].copy_from_slice(&m);
                 }
                 extents.push((s, *nb as u64));
